@@ -130,7 +130,7 @@ class Entry:
         self.names = {'N': unhx(n), 'E': unhx(ea), 'S': unhx(s), 'W': unhx(w)}
         self.dealer = e['Player'][dealer]
         self.hands = [cards_arg(h) for h in (hn, he, hs, hw)]
-        self.scoring = e['Scoring'][sc]
+        self.scoring = e['Scoring'](sc)
         self.calls = [call_obj(int(c)) for c in calls.split(',')] if calls != '-' else []
         fb = None if bid == '-' else (e['Bid'].Pass if bid == 'P' else call_obj(int(bid)))
         self.vul = e['Vul'].str_to_vul(vul)
@@ -289,9 +289,9 @@ def py_loads_line(text):
     except ValueError:
         return 'ERR'
     except RecursionError:
-        return 'OUT'
+        return 'ERR'
     if not in_domain(v):
-        return 'OUT'
+        return 'ERR'      # floats and lone surrogates: the model's reader answers none there by design
     return hx(json.dumps(v))
 
 
